@@ -95,7 +95,9 @@ def observe_tree(root, per_node=True):
 # ----------------------------------------------------------------------------- mutation operators
 
 UNICODE_POOL = ["", " ", "\t\n", " ", "x" * 3000, "<&>\"'", "ｆｕｌｌ", "‮RTL", "emoji 😀", "\x00ctl\x1f", "ñé漢字", "1e5", "-0", "nan", "٣",
-                "http://[::1]/", "https://user:pw@host.example/x", "http://:@h.example/", "ftp://u@h.example", "http://h.example:99999/", "http://h/%zz", "12:00", "2020-02-30", "%s %d {0}", "\\N{X}", "null", "None", "True"]
+                "http://[::1]/", "https://user:pw@host.example/x", "http://:@h.example/", "ftp://u@h.example", "http://h.example:99999/", "http://h/%zz", "12:00", "2020-02-30", "%s %d {0}", "\\N{X}", "null", "None", "True",
+                # numbers beyond what the interpreter converts without protest (int() refuses more than 4300 digits with ValueError)
+                "9" * 4301, "-" + "1" * 5000, " " + "7" * 4400 + " ", "0" * 6000, "1" * 4400 + ".5", "1e" + "9" * 400, "0." + "0" * 5000 + "1"]
 
 
 def mutate(root, rnd, t, ops=None):
